@@ -324,10 +324,19 @@ func execute(t ev.TB, c *chainCase) ([]string, []observed) {
 	for r, rq := range c.Reqs {
 		delays[tokens[r]] = time.Duration(rq.UpDelayUs) * time.Microsecond
 	}
-	up := mesh.NewUpstream(c.Proto, func(r *mesh.Req) mesh.Action {
-		return mesh.Action{Kind: "reply", Delay: delays[r.Token], Status: map[string]int{"Http1": 200, "bolt": 0}[c.Proto],
-			Header: [][2]string{{mesh.TokenHeader, r.Token}, {upHdr, r.Token}}, Body: []byte("up:" + r.Token)}
-	})
+	var up *mesh.Upstream
+	func() {
+		// the rig panics when no loopback port can be bound (ephemeral ports exhausted on a busy machine): infrastructure
+		defer func() {
+			if x := recover(); x != nil {
+				inconclusive(t, c, "mesh.NewUpstream: %v", x)
+			}
+		}()
+		up = mesh.NewUpstream(c.Proto, func(r *mesh.Req) mesh.Action {
+			return mesh.Action{Kind: "reply", Delay: delays[r.Token], Status: map[string]int{"Http1": 200, "bolt": 0}[c.Proto],
+				Header: [][2]string{{mesh.TokenHeader, r.Token}, {upHdr, r.Token}}, Body: []byte("up:" + r.Token)}
+		})
+	}()
 	defer up.Close()
 
 	var filters []v2.Filter
